@@ -3,6 +3,7 @@ package json
 import (
 	"bytes"
 	"encoding/json"
+	"math/big"
 	"sort"
 
 	"github.com/zclconf/go-cty/cty"
@@ -48,8 +49,14 @@ func marshal(val cty.Value, t cty.Type, path cty.Path, b *bytes.Buffer) error {
 			if bf.IsInt() {
 				// Whole numbers compare exactly, so they must be written
 				// exactly rather than as the shortest text that identifies
-				// them at their own precision.
-				b.WriteString(bf.Text('f', 0))
+				// them at their own precision: we use the shortest text
+				// that identifies them at the precision numbers are
+				// parsed with, so that reading it back gives the same
+				// number.
+				if bf.Prec() < 512 {
+					bf = new(big.Float).SetPrec(512).Set(bf)
+				}
+				b.WriteString(bf.Text('f', -1))
 				return nil
 			}
 			b.WriteString(bf.Text('f', -1))
